@@ -56,6 +56,10 @@ def parseEntry (tok : String) : Option Entry :=
   | ["s", n, t] => some ⟨parseTarget n, .sym (parseTarget t)⟩
   | ["h", n, t] => some ⟨parseTarget n, .hard (parseTarget t)⟩
   | ["o", n] => some ⟨parseTarget n, .other⟩
+  | ["c", n] => some ⟨parseTarget n, .other⟩
+  | ["b", n] => some ⟨parseTarget n, .other⟩
+  | ["F", n, c] => some ⟨parseTarget n, .reg (encName c)⟩
+  | ["S", n, t] => some ⟨parseTarget n, .sym (parseTarget t)⟩
   | _ => none
 
 def okStr (b : Bool) : String := if b then "ok" else "err"
@@ -76,6 +80,12 @@ def step (s : S) (line : String) : S × String :=
     let (fs, ok) := link s.fs fuel (parsePath old) (parsePath p)
     ({ fs := fs }, okStr ok)
   | ["snap"] => (s, snapshot s.fs)
+  | "untarraw" :: dest :: _ =>
+    -- a malformed stream: only "the call returns and nothing outside the destination changed" is predicted
+    let d := parsePath dest
+    -- (the destination directory is created before the stream is looked at)
+    let fs := (mkdirAll s.fs fuel d).1
+    ({ fs := fs }, "done " ++ snapshot { fs with ents := fs.ents.filter (fun e => !(d.isPrefixOf e.1 && e.1 != d)) })
   | op :: dest :: ents =>
     -- "untarh" / "untarhp": health.extractTarWithFallback (gzip / plain tar), which is the same extractor
     if !(op == "untar" || op == "untarh" || op == "untarhp") then (s, "bad-op") else
@@ -117,7 +127,7 @@ def spec (s : SpecS) (op : String) (implOut : String) : SpecS × String :=
   | ["reset"], _ => ({}, "ok")
   | _, "panic" :: _ => (s, "fail crashed")
   | op :: dest :: _, [_, after] =>
-    if !(op == "untar" || op == "untarh" || op == "untarhp") then (s, "ok") else
+    if !(op == "untar" || op == "untarh" || op == "untarhp" || op == "untarraw") then (s, "ok") else
     let d := showPath (parsePath dest)
     if after.startsWith "ESCAPED" then (s, "fail outside-changed escaped-sandbox")
     else if outsideOf d s.before != outsideOf d after then (s, "fail outside-changed")
